@@ -63,7 +63,7 @@ def expected_value(sig_out, ref):
 def scenario(ctx):
     ds, sim = ctx.ds, ctx.sim
     rig = BusRig(ctx, creds=ds.flag(0.6), prop='C11')
-    nclients = 2 + ds.choose(3)
+    nclients = 2 + ds.choose(5 if ctx.tier == 'thorough' else 3)
     clients = [rig.add_client() for _ in range(nclients)]
     nexp = 1 if nclients == 2 or ds.flag(0.6) else 2
     exporters = clients[:nexp]
@@ -130,7 +130,7 @@ def scenario(ctx):
         callers = clients        # an exporter may call (itself or the other one) through the bus
     proxies = []          # dict(owner, svc, kind, obs, prox)
     calls = []
-    rounds = [1 + ds.choose(3)]
+    rounds = [1 + ds.choose(5 if ctx.tier == 'thorough' else 3)]
     budget = [0]
 
     def get_proxy(c, s):
@@ -225,7 +225,7 @@ def scenario(ctx):
         sim.probe('call-to-second-exporter')
     while rounds[0] > 0:
         rounds[0] -= 1
-        budget[0] = 1 + ds.choose(3)
+        budget[0] = 1 + ds.choose(5 if ctx.tier == 'thorough' else 3)
         sim.step = 0
         sched.run(400, extra, invariant)
         budget[0] = 0
